@@ -83,8 +83,91 @@ def _run_tac(program, specs, now):
     pol = FlowPolicy(program, may_raise_all=False, cancel=False, summaries=_summaries())
     pol.loop_unroll = 4
     arg = ListV([Const(s) for s in specs]) if len(specs) != 1 else Const(specs[0])
-    out = run_flow(program, TAC, pol, args={"cls": ClassV("TrigTime"), "time_spec": arg, "now": Const(_t(now)), "startup_time": Const(_t(0))})
+    from .c06 import DOW
+    from ..absint import DictV as _DictV
+    heap = {"TrigTime.dow2int": _DictV([(Const(k), Const(v)) for k, v in DOW.items()])}  # day-of-week names (the model's tokens are none of them)
+    out = run_flow(program, TAC, pol, args={"cls": ClassV("TrigTime"), "time_spec": arg, "now": Const(_t(now)), "startup_time": Const(_t(0))}, heap=heap)
     return sorted({repr(c.env.get("$ret")) for c in out.get("return")} | {f"raise {getattr(c.env.get('$exc'), 'cls', '?')}" for c in out.get("raise")})
+
+
+def weekday_range_grid(ctx, program, rid):
+    import datetime as _dt
+    from ..absint import FuncV, DictV
+    from .c06 import DOW
+    glob = {"parse_time_offset": FuncV(program.func("trigger.py::parse_time_offset"), name="parse_time_offset")}
+    heap = {"TrigTime.dow2int": DictV([(Const(k), Const(v)) for k, v in DOW.items()])}
+    # 2024-09-06 is a Friday
+    cases = [("range(fri 18:00, mon 6:00)", _dt.datetime(2024, 9, 6, 17, 0), False), ("range(fri 18:00, mon 6:00)", _dt.datetime(2024, 9, 6, 19, 0), True),
+             ("range(fri 18:00, mon 6:00)", _dt.datetime(2024, 9, 7, 12, 0), True), ("range(fri 18:00, mon 6:00)", _dt.datetime(2024, 9, 8, 23, 0), True),
+             ("range(fri 18:00, mon 6:00)", _dt.datetime(2024, 9, 9, 5, 0), True), ("range(fri 18:00, mon 6:00)", _dt.datetime(2024, 9, 9, 7, 0), False),
+             ("range(fri 18:00, mon 6:00)", _dt.datetime(2024, 9, 11, 12, 0), False), ("not range(fri 18:00, mon 6:00)", _dt.datetime(2024, 9, 7, 12, 0), False),
+             ("range(sat 0:00, sun 23:59)", _dt.datetime(2024, 9, 8, 12, 0), True), ("range(sat 0:00, sun 23:59)", _dt.datetime(2024, 9, 9, 12, 0), False)]
+    for spec, now, want in cases:
+        pol = FlowPolicy(program, may_raise_all=False, cancel=False, inline={"parse_time_offset", "cls.parse_date_time", "TrigTime.parse_date_time"}, globals_=glob)
+        pol.loop_unroll = 6
+        out = run_flow(program, TAC, pol, args={"cls": ClassV("TrigTime"), "time_spec": Const(spec), "now": Const(now), "startup_time": Const(now - _dt.timedelta(days=30))}, heap=heap)
+        got = sorted({repr(c.env.get("$ret")) for c in out.get("return")} | {f"raise {getattr(c.env.get('$exc'), 'cls', '?')}" for c in out.get("raise")})
+        ctx.check(got == [repr(Const(want))], rid, TAC, f"{spec} on {now:%a %Y-%m-%d %H:%M}",
+                  msg=f"timer_active_check({spec!r}) on {now:%A %Y-%m-%d %H:%M} gives {got}, the specification says {want}: a weekday in a range is read as the NEXT such day, so the range only "
+                  f"matches on the weekday of its start", key=f"weekday range {spec} @ {now:%a %H:%M}", node=program.func(TAC), rel="trigger.py")
+
+
+def guard_atomicity_rule(ctx, program, rid):
+    uid = "decorator.py::FunctionDecoratorManager.dispatch"
+    fn = program.func(uid)
+    cls = program.cls("decorator.py::FunctionDecoratorManager")
+    locks = set()
+    for n in ast.walk(cls):
+        val = getattr(n, "value", None)
+        if isinstance(n, (ast.Assign, ast.AnnAssign)) and isinstance(val, ast.Call) and (call_name(val) or "").endswith("Lock"):
+            for t in (n.targets if isinstance(n, ast.Assign) else [n.target]):
+                locks.add(norm(t).replace("self.", ""))
+    asks = [n for n in body_walk(fn) if isinstance(n, ast.Call) and (call_name(n) or "").endswith(".handle_dispatch")]
+    recs = [n for n in body_walk(fn) if isinstance(n, ast.Call) and (call_name(n) or "").endswith(".dispatch_accepted")]
+    if not asks or not recs:
+        raise AnalysisError("FunctionDecoratorManager.dispatch: guard calls not found")
+
+    def holder(n):
+        p = getattr(n, "_parent", None)
+        while p is not None and p is not fn:
+            if isinstance(p, ast.AsyncWith) and any(norm(i.context_expr).replace("self.", "") in locks for i in p.items):
+                return p
+            p = getattr(p, "_parent", None)
+        return None
+
+    hs = {id(holder(n)) if holder(n) is not None else None for n in asks + recs}
+    ctx.check(None not in hs and len(hs) == 1, rid, uid, "guards are asked and the acceptance recorded under one lock",
+              msg=f"FunctionDecoratorManager.dispatch asks the guards ({short(asks[0])}) and records the acceptance ({short(recs[0])}) without holding a common lock (locks of the class: "
+              f"{sorted(locks) or 'none'}): two occurrences arriving back to back both pass @time_active(hold_off=N) while the first is suspended in a guard, and the function runs twice",
+              key="guard check/record atomic", node=asks[0], rel="decorator.py")
+
+
+def occurrence_time_rule(ctx, program, rid):
+    import datetime as _dt
+    uid = "decorators/timing.py::TimeActiveDecorator.handle_dispatch"
+    CLOCK = Const(_dt.datetime(2024, 5, 1, 12, 0, 0))
+    GIVEN = Const(_dt.datetime(2024, 5, 1, 8, 30, 0))
+    cases = [("time trigger at its instant", {"trigger_type": Const("time"), "trigger_time": GIVEN}, GIVEN),
+             ("time trigger at start-up (trigger_time is the word 'startup')", {"trigger_type": Const("time"), "trigger_time": Const("startup")}, CLOCK),
+             ("event whose payload has a trigger_time key", {"trigger_type": Const("event"), "event_type": Const("e"), "trigger_time": GIVEN}, CLOCK),
+             ("state trigger with kwargs={'trigger_time': ...}", {"trigger_type": Const("state"), "var_name": Const("d.e"), "trigger_time": GIVEN}, CLOCK),
+             ("event without trigger_time", {"trigger_type": Const("event"), "event_type": Const("e")}, CLOCK)]
+    for label, fa, want in cases:
+        seen = []
+
+        def active(i, n, a, k, c, o, seen=seen):
+            seen.append(a[1] if len(a) > 1 else None)
+            return [(c, Const(True))]
+
+        pol = FlowPolicy(program, may_raise_all=False, cancel=False, summaries={"trigger.TrigTime.timer_active_check": active, "dt_now": lambda i, n, a, k, c, o: [(c, CLOCK)],
+                                                                               "time.monotonic": lambda i, n, a, k, c, o: [(c, Const(1000.0))]})
+        heap = {"self.args": ListV((Const("range(8:00, 9:00)"),), "list"), "self.hold_off": NONE, "self.last_trig_time": Const(0.0), "self.dm": ObjV("dm", "FunctionDecoratorManager"),
+                "dm.startup_time": Const(_dt.datetime(2024, 5, 1, 0, 0, 0)), "data.func_args": DictV([(Const(k), v) for k, v in fa.items()])}
+        out = run_flow(program, uid, pol, args={"self": ObjV("self", "TimeActiveDecorator"), "data": ObjV("data", "DispatchData")}, heap=heap)
+        ex = exits(out)
+        ok = bool(ex) and all(k == "return" for k, c, d in ex) and seen and all(x == want for x in seen)
+        ctx.check(ok, rid, uid, f"occurrence time: {label}", msg=f"@time_active, {label}: the specification is checked at {sorted(set(map(repr, seen)))} (exits {[d for k, c, d in ex]}), the occurrence time is {want!r}: "
+                  f"whoever fires the event (or writes the kwargs) decides whether the function is inside its allowed time range", key=f"occurrence time {label}", node=program.func(uid), rel="decorators/timing.py")
 
 
 def run(ctx):
@@ -174,11 +257,17 @@ def run(ctx):
     ctx.rule("R07.7", "the occurrence time a time trigger hands to the guards is the wall-clock instant", floor=3)
     from .c06 import trigger_time_rule
     trigger_time_rule(ctx, program, "R07.7")
-    hdf = program.func(hd)
-    ok = any(isinstance(n, ast.If) and "'trigger_time' in data.func_args" in norm(n.test) and "dt.datetime" in norm(n.test) for n in body_walk(hdf))
-    ctx.check(ok, "R07.7", hd, "@time_active is evaluated at the occurrence's trigger_time when there is one",
-              msg="TimeActiveDecorator.handle_dispatch no longer evaluates the window at the occurrence's trigger_time", key="time_active uses trigger_time", node=hdf, rel="decorators/timing.py")
+    # (that @time_active is evaluated at that instant is decided by interpretation: R07.12, first case)
 
+    ctx.rule("R07.12", "new subsystem @time_active: the occurrence time is the wall-clock instant of a time trigger, and the current time for every other trigger type - a "
+             "'trigger_time' key in an event's payload or in the trigger's kwargs= does not choose the time that is checked", floor=4)
+    occurrence_time_rule(ctx, program, "R07.12")
+    ctx.rule("R07.13", "new subsystem: check-then-record of the guards is atomic per function - every occurrence is dispatched in a task of its own and a guard may suspend "
+             "(sunrise/sunset lookup, expressions calling functions), so asking the guards and recording the acceptance (hold_off reference) happen under one lock held by the manager", floor=1)
+    guard_atomicity_rule(ctx, program, "R07.13")
+    ctx.rule("R07.14", "range() with days of the week on concrete calendars: an instant is inside range(fri 18:00, mon 6:00) exactly from Friday 18:00 to the following Monday 6:00 "
+             "(timer_active_check with the date parser inlined)", floor=8)
+    weekday_range_grid(ctx, program, "R07.14")
     ctx.rule("R07.5", "guards run only on the dispatch paths: never from direct calls of the function", floor=2)
     callers = set()
     for u in program.functions():
